@@ -61,6 +61,7 @@ func GetEvent() *Event {
 
 // PutEvent resets the given Event and returns it to the pool for reuse.
 func PutEvent(e *Event) {
+	verifEvt(1, e)
 	e.Reset()
 	eventPool.Put(e)
 }
